@@ -396,6 +396,41 @@ func footerSources(p *Program) string {
 	return strings.Join(parts, ",")
 }
 
+// withHelpers: a function and the in-package functions it calls (two levels):
+// footer assembly and parsing may live in helpers of Close / NewReader.
+func withHelpers(p *Program, f *ssa.Function) []*ssa.Function {
+	seen := map[*ssa.Function]bool{f: true}
+	res := []*ssa.Function{f}
+	frontier := []*ssa.Function{f}
+	for depth := 0; depth < 2; depth++ {
+		var next []*ssa.Function
+		for _, g := range frontier {
+			var ks []string
+			for k := range directCallees(g) {
+				ks = append(ks, k)
+			}
+			sort.Strings(ks)
+			for _, k := range ks {
+				if h := p.Func(k); h != nil && !seen[h] {
+					seen[h] = true
+					res = append(res, h)
+					next = append(next, h)
+				}
+			}
+		}
+		frontier = next
+	}
+	return res
+}
+
+func blocksOf(fs []*ssa.Function) []*ssa.BasicBlock {
+	var bs []*ssa.BasicBlock
+	for _, f := range fs {
+		bs = append(bs, f.Blocks...)
+	}
+	return bs
+}
+
 func objIDBits(p *Program) string {
 	w := p.Func("(*Writer).Close")
 	r := p.Func("NewReader")
@@ -403,11 +438,20 @@ func objIDBits(p *Program) string {
 		return "?"
 	}
 	shl, shr, mask := "", "", ""
-	for _, b := range w.Blocks {
+	for _, b := range blocksOf(withHelpers(p, w)) {
 		for _, ins := range b.Instrs {
 			if bo, ok := ins.(*ssa.BinOp); ok && bo.Op == token.SHL {
 				if c, ok := bo.Y.(*ssa.Const); ok && c.Value != nil {
-					shl = c.Value.ExactString()
+					// offset<<bits | id_len: a 64-bit shift whose result is or-ed
+					feedsOr := false
+					for _, ref := range *bo.Referrers() {
+						if o, ok := ref.(*ssa.BinOp); ok && o.Op == token.OR {
+							feedsOr = true
+						}
+					}
+					if bt, ok := bo.Type().Underlying().(*types.Basic); ok && bt.Kind() == types.Uint64 && (feedsOr || b.Parent() == w) {
+						shl = c.Value.ExactString()
+					}
 				}
 			}
 		}
@@ -437,8 +481,13 @@ func objIDBits(p *Program) string {
 }
 
 func crcKind(p *Program) string {
-	w := len(callsDirect(p.MustFunc("(*Writer).Close"), "hash/crc32.NewIEEE")) + len(callsDirect(p.MustFunc("(*Writer).Close"), "hash/crc32.ChecksumIEEE"))
-	r := len(callsDirect(p.MustFunc("NewReader"), "hash/crc32.ChecksumIEEE")) + len(callsDirect(p.MustFunc("NewReader"), "hash/crc32.NewIEEE"))
+	w, r := 0, 0
+	for _, f := range withHelpers(p, p.MustFunc("(*Writer).Close")) {
+		w += len(callsDirect(f, "hash/crc32.NewIEEE")) + len(callsDirect(f, "hash/crc32.ChecksumIEEE"))
+	}
+	for _, f := range withHelpers(p, p.MustFunc("NewReader")) {
+		r += len(callsDirect(f, "hash/crc32.ChecksumIEEE")) + len(callsDirect(f, "hash/crc32.NewIEEE"))
+	}
 	if w > 0 && r > 0 {
 		return "crc32-ieee"
 	}
